@@ -25,7 +25,7 @@ CHECKS = {
  'C02': dict(seed_offset=2, level='exploration', rule=RULE_A, props=['C02'],
              batches=[dict(profile='strf', flavour='plain', quick=60000, thorough=3000000), dict(profile='strf', flavour='asan', quick=4000, thorough=150000), dict(profile='strf', flavour='long', quick=8000, thorough=400000), dict(profile='strf', flavour='vblas', quick=8000, thorough=400000)],
              must_probe=['factorizations_checked', 'update_2d', 'supernode_spans_two_panels', 'panel_split_at_top', 'offdiag_pivots']),
- 'C03': dict(seed_offset=3, level='exploration', rule=RULE_A, props=['C03'],
+ 'C03': dict(seed_offset=3, level='exploration', rule=RULE_A, props=['C03', 'C02'],
              batches=[dict(profile='pipe', flavour='plain', quick=60000, thorough=3000000), dict(profile='strf', flavour='plain', quick=20000, thorough=1000000)],
              must_probe=['pipeline_waits', 'busy_chain_ge3_panels', 'supernode_spans_two_panels', 'canpipe_panel_taken', 'row_interchanges']),
  'C04': dict(seed_offset=4, level='exploration', rule=RULE_A, props=['C04'],
@@ -56,21 +56,22 @@ CHECKS = {
                    "requests of the driver call), 1 workspace query, 2 sufficient caller workspace, then for k = 1..48 (and a seeded sample of larger k) 'fail request k and all later ones' and 'fail only request k', "
                    "then caller-workspace sizes at cumulative boundaries of a sufficient run +- one word (always including the peak) and seeded sizes; thorough tier: 1024 items per configuration, i.e. every k. "
                    "A case is non-trivial if it has >= 2 worker threads, >= 2 columns and a scheduling decision; distinct = distinct (H_sched, H_obs)"),
-             props=['C14', 'C01', 'C02', 'C07', 'C09', 'C05', 'C04', 'C12', 'C13'],
+             props=['C14', 'C01', 'C02', 'C07', 'C09', 'C05', 'C04', 'C12', 'C13', 'C17'],
              batches=[dict(profile='alloc', flavour='plain', quick=128 * 60, thorough=1024 * 400, S=128, S_thorough=1024), dict(profile='alloc', flavour='asan', quick=128 * 12, thorough=1024 * 40, S=128, S_thorough=1024)],
-             must_probe=['alloc_mode_3', 'alloc_mode_4', 'alloc_mode_5', 'workspace_queries', 'abort_under_fault', 'returned_info_gt_n', 'workspace_size_sufficient_after_all', 'user_workspace_calls'],
+             must_probe=['alloc_mode_3', 'alloc_mode_4', 'alloc_mode_5', 'workspace_queries', 'abort_under_fault', 'returned_info_gt_n', 'workspace_size_sufficient_after_all', 'user_workspace_calls', 'alloc_returns_leak_checked'],
              assumptions=["a call that returns info = 0 after an injected failure is accepted only if its result passes the full oracles (counted as succeeded_despite_failed_request)",
                           "allocator requests are counted inside the driver call only (orderings computed by get_perm_c before the call are outside the armed window)"]),
  'C16': dict(seed_offset=16, level='exploration', rule=RULE_A + "; patterns have a full diagonal (half of them symmetrized), values are row- and column-diagonally dominant, SymmetricMode = YES, u = 0, ordering MMD on A'+A (85 %; other orderings are co-observed only)",
              props=['C16', 'C05', 'C02', 'C07', 'C09'],
              batches=[dict(profile='sym', flavour='plain', quick=40000, thorough=2000000), dict(profile='sym', flavour='asan', quick=3000, thorough=100000)],
              must_probe=['sym_runs_checked', 'sym_runs_mmd_at_plus_a', 'lusup_allocs_checked', 'factorizations_checked']),
- 'C17': dict(seed_offset=17, level='exploration', rule=RULE_A + "; a case here is a history (as in C08) extended with early-return calls (workspace query, illegal argument, exactly singular matrix, caller workspace too small) that ends with the documented destroy calls and is executed twice in a row; the ordering call (get_perm_c) is part of each repetition; a second batch runs SymmetricMode = YES histories (query, factor, reuse, refactor, destroy) on the symmetric-mode matrix class of C16",
+ 'C17': dict(seed_offset=17, level='exploration', rule=RULE_A + "; a case here is a history (as in C08) extended with early-return calls (workspace query, illegal argument, exactly singular matrix, caller workspace too small) that ends with the documented destroy calls and is executed twice in a row; the ordering call (get_perm_c) is part of each repetition; a second batch runs SymmetricMode = YES histories (query, factor, reuse, refactor, destroy) on the symmetric-mode matrix class of C16; a third batch is C14's enumeration of workspace sizes and failed requests, where every call that returns (query, sufficient and too-small caller workspace) is followed by the destroy calls and the same accounting",
              props=['C17'],
              batches=[dict(profile='leak', flavour='plain', quick=20000, thorough=1000000),
-                      dict(profile='symleak', flavour='plain', quick=6000, thorough=300000)],
+                      dict(profile='symleak', flavour='plain', quick=6000, thorough=300000),
+                      dict(profile='alloc', flavour='plain', quick=128 * 16, thorough=1024 * 100, S=128, S_thorough=1024)],
              must_probe=['leak_histories_checked', 'workspace_queries', 'illegal_argument_calls', 'workspace_too_small_returns', 'refactorizations', 'factored_calls',
-                         'ordering_calls_leak_checked', 'ordering_calls_empty_adjacency', 'cfg_symmetric_mode'],
+                         'ordering_calls_leak_checked', 'ordering_calls_empty_adjacency', 'cfg_symmetric_mode', 'alloc_returns_leak_checked', 'returned_info_gt_n'],
              assumptions=["accounting covers every malloc/calloc/realloc/free issued inside a library call (link-time wrappers); thread accounting is the simulator's own (created = finished = joined, checked on every call of every profile)",
                           "runs that end in the abort path are not leak-checked (the process is gone)"]),
  'C18': dict(seed_offset=18, level='exploration',
